@@ -40,7 +40,8 @@ RULE = ("part 'handoff': ProgGen programs whose remote nodes hand work (multi-ho
         "invoked by 2-4 threads under the line-granular scheduler (LINE events on eliot/_action.py), ALL one-preemption schedules "
         "per priority order plus sampled deeper ones: f runs exactly once, that caller gets f's result / f's exception object, "
         "every other caller gets TooManyCalls, exactly one remote action is logged; with no current action preserve_context(f) is f; the callables handed over are functions, functools.partial objects, objects with "
-        "__call__ and bound methods. "
+        "__call__ and bound methods (the preserved callable being the only reference to them); in half of the race cases the function invokes the callable again itself, "
+        "or keeps running until every other invocation has come back: those invocations raise TooManyCalls as well (blocking on the running one = deadlock = violation). "
         "non-trivial = hand-off program with >=2 hops or a child process; race schedule whose preemption fired in _action.py")
 ASSUMPTIONS = ["each serialized id is continued exactly once", "merge orders are sampled (the parser's order-independence is C09's subject)"]
 EXHAUSTIVE_NOTE = "race: all one-preemption schedules for every priority order of the invoking threads"
@@ -301,8 +302,9 @@ def one_subprocess(spec, res):
 # --------------------------------------------------------------------------- preserve_context race
 
 
-def race_once(plan_, ncallers, outcome, tape_msgs):
+def race_once(plan_, ncallers, outcome, tape_msgs, body="plain"):
     calls = {"f": 0}
+    inner = {}
     exc_obj = excs.UserError("f fails")
     result_obj = ("result", object())
     from vf.tape import Recorder, Tape
@@ -315,6 +317,15 @@ def race_once(plan_, ncallers, outcome, tape_msgs):
             def f(x):
                 calls["f"] += 1
                 log_message(message_type="race:in_f", nid=2)
+                if body == "reentrant":
+                    # the function itself invokes the callable again (a retry helper, a recursive job): another call like any other
+                    try:
+                        inner["r"] = ("ret", g(x))
+                    except TooManyCalls as e:
+                        inner["r"] = ("toomany", e)
+                elif body == "overlap":
+                    # a long-running function: it is still running while every other invocation arrives - and is rejected
+                    sched.wait_until(lambda: len(results) >= ncallers - 1)
                 if outcome == "raise":
                     raise exc_obj
                 return result_obj
@@ -323,18 +334,26 @@ def race_once(plan_, ncallers, outcome, tape_msgs):
             def caller(k):
                 def run():
                     try:
-                        results[k] = ("ret", g(k))
+                        r = ("ret", g(k))
                     except TooManyCalls as e:
-                        results[k] = ("toomany", e)
+                        r = ("toomany", e)
                     except BaseException as e:
-                        results[k] = ("raise", e)
+                        r = ("raise", e)
+                    results[k] = r
+                    sched.notify()
                 return run
             st, errs = sched.run_schedule(plan_, {"C%d" % k: caller(k) for k in range(ncallers)}, timeout=60.0)
     finally:
         remove_destination(rec)
     problems = ["caller %s raised %r outside the call" % (n, e) for n, e in errs.items()]
     if st["deadlock"]:
-        problems.append("invocations of the preserved callable deadlocked: %s" % st["deadlock"])
+        if body == "overlap":
+            problems.append("invocations made while the first invocation of the preserved callable was still running were not rejected with TooManyCalls "
+                            "but blocked until it would finish: %s" % st["deadlock"])
+        elif body == "reentrant":
+            problems.append("an invocation of the preserved callable made by the function itself did not raise TooManyCalls but blocked for ever: %s" % st["deadlock"])
+        else:
+            problems.append("invocations of the preserved callable deadlocked: %s" % st["deadlock"])
         return st, problems, False
     if st["aborted"]:
         return st, problems, True
@@ -353,6 +372,8 @@ def race_once(plan_, ncallers, outcome, tape_msgs):
             problems.append("the running invocation got %r, not f's result object" % (val,))
     if len(results) != ncallers:
         problems.append("%d of %d callers finished" % (len(results), ncallers))
+    if body == "reentrant" and inner.get("r", ("", None))[0] != "toomany":
+        problems.append("the invocation made by the function itself gave %r, expected TooManyCalls" % (inner.get("r"),))
     msgs = tape.msgs("rec")
     remote_starts = [m for m in msgs if m.get("action_type") == "eliot:remote_task" and m.get("action_status") == "started"]
     if len(remote_starts) != 1:
@@ -380,8 +401,11 @@ def part_race(spec, res):
     if preserve_context(plain) is not plain:
         res["violations"].append({"msg": "preserve_context(f) is not f although no action is current", "mech": None, "detail": {}})
 
+    body = ["plain", "reentrant", "overlap", "plain"][spec["i"] % 4]
+    c["race_bodies_" + body] = c.get("race_bodies_" + body, 0) + 1
+
     def execute(plan_, label):
-        st, problems, aborted = race_once(plan_, ncallers, outcome, None)
+        st, problems, aborted = race_once(plan_, ncallers, outcome, None, body)
         res["evals"] += 1
         c["race_schedules_run"] = c.get("race_schedules_run", 0) + 1
         if aborted:
@@ -393,7 +417,7 @@ def part_race(spec, res):
         if st["fired"]:
             res["nontrivial"].append(sched.trace_hash(st))
         if problems and len(res["violations"]) < 3:
-            res["violations"].append({"msg": problems[0], "mech": None, "detail": {"part": "race", "plan": plan_, "callers": ncallers, "outcome": outcome,
+            res["violations"].append({"msg": problems[0], "mech": None, "detail": {"part": "race", "plan": plan_, "callers": ncallers, "outcome": outcome, "body": body,
                                                                                    "problems": problems[:6], "label": label}})
         return st
 
@@ -711,4 +735,6 @@ def finalize(agg, tier):
         return "too few child processes / race schedules / subprocess hand-offs"
     if not any(l.startswith("_action.py") for l in agg["sets"].get("preemption_lines", {})):
         return "no preemption landed inside eliot/_action.py"
+    if c.get("race_bodies_reentrant", 0) < 1 or c.get("race_bodies_overlap", 0) < 1:
+        return "no race case with a re-entrant / overlapping invocation"
     return None
